@@ -241,7 +241,7 @@ func checkSzxTable(e *Env) map[int64]int64 {
 		ok := false
 		why := "Size does not return szxToSize[s]"
 		for _, ret := range core.ReturnsOf(f) {
-			ex, isEx := ret.Results[0].(*ssa.Extract)
+			ex, isEx := core.RetVal(ret, 0).(*ssa.Extract)
 			if !isEx {
 				continue
 			}
@@ -261,7 +261,7 @@ func checkSzxTable(e *Env) map[int64]int64 {
 		}
 		// other returns must be the constant -1 on the !ok edge
 		for _, ret := range core.ReturnsOf(f) {
-			if k, isC := core.ConstInt(ret.Results[0]); isC && k != -1 {
+			if k, isC := core.ConstInt(core.RetVal(ret, 0)); isC && k != -1 {
 				ok, why = false, "a constant other than -1 is returned"
 			}
 		}
@@ -370,7 +370,7 @@ func checkBufferSize(e *Env, table map[int64]int64) {
 	// BERT: shape ⌊max/S⌋·S with the same S ⇒ ≤ max
 	shape := false
 	for _, ret := range core.ReturnsOf(f) {
-		m, isM := ret.Results[0].(*ssa.BinOp)
+		m, isM := core.RetVal(ret, 0).(*ssa.BinOp)
 		if !isM || m.Op != token.MUL {
 			continue
 		}
